@@ -143,6 +143,7 @@ pub struct Report {
   kf: KnownFindings,
   /// Cap on the number of distinct violations kept (the first ones are the smallest).
   pub max_violations: usize,
+  pub replay_mode: bool,
 }
 
 impl Report {
@@ -159,6 +160,7 @@ impl Report {
       known_hits: BTreeMap::new(),
       kf: KnownFindings::load(),
       max_violations: 5,
+      replay_mode: args.replay.is_some(),
     }
   }
 
@@ -232,7 +234,8 @@ impl Report {
       "violations": self.violations.len(),
     });
     let _ = fs::create_dir_all(format!("{}/evidence", verif_dir()));
-    let path = format!("{}/evidence/{}.json", verif_dir(), self.property);
+    // a replay of one recorded history must not overwrite the evidence of the property's check
+    let path = if self.replay_mode { format!("{}/evidence/{}.replay.json", verif_dir(), self.property) } else { format!("{}/evidence/{}.json", verif_dir(), self.property) };
     if let Err(e) = fs::write(&path, serde_json::to_string_pretty(&evidence).unwrap()) {
       engine_error(&format!("cannot write evidence {}: {}", path, e));
     }
